@@ -30,11 +30,9 @@ Definition sort_set (l : list N) : list N := fold_right insert [] l.
    package c (e.g. "c1.core", "clients.alpha.core"), so that c's directory contains the core. *)
 Record layout := { core_depth : nat; core_inside_client : option str }.
 
-(* _is_shared_core:  parent_dir == project_root or parent_dir.parent == project_root,
-   on depths relative to the project root (the root has depth 0, Path.parent decrements) *)
-Definition parent_depth (d : nat) : nat := pred d.
-Definition is_shared (l : layout) : bool :=
-  Nat.eqb (parent_depth (core_depth l)) 0 || Nat.eqb (parent_depth (parent_depth (core_depth l))) 0.
+(* _is_shared_core:  project_root in core_path.parents — the core lies strictly below the project
+   root, at any depth (the root has depth 0) *)
+Definition is_shared (l : layout) : bool := Nat.leb 1 (core_depth l).
 
 (* ---------- the world: what is on disk under one project root ---------- *)
 Definition reg := list (str * list N).
@@ -118,8 +116,9 @@ Definition works_b (w : world) : bool :=
   && forallb (fun c => amem c (clients w)) (claimed w).
 
 (* ---------- executable guards (one per finding) ---------- *)
-(* F11a: the path test recognises a shared core only one or two packages deep *)
-Definition guard_F11a (l : layout) : bool := is_shared l.
+(* well-formed layout: the core package has at least one component (F11a is fixed: a core is
+   recognised as shared at any depth, so this is no longer a finding guard) *)
+Definition wf_layout (l : layout) : bool := is_shared l.
 (* F11b: the client whose directory contains the core is regenerated through the direct path
    while that directory exists (rmtree takes registry and aliases with it) *)
 Definition bad_F11b (l : layout) (w : world) (g : gen_call) : bool :=
@@ -138,4 +137,4 @@ Fixpoint never (bad : layout -> world -> gen_call -> bool) (l : layout) (w : wor
 Definition guard_F11b (l : layout) (h : list gen_call) : bool := never bad_F11b l init h.
 Definition guard_F11c (l : layout) (h : list gen_call) : bool := never bad_F11c l init h.
 Definition guard (l : layout) (h : list gen_call) : bool :=
-  guard_F11a l && guard_F11b l h && guard_F11c l h.
+  wf_layout l && guard_F11b l h && guard_F11c l h.
